@@ -167,6 +167,18 @@ Definition view_rep_body (r : wrep) : srep :=
   end.
 Definition view_rep (r : wrep) : option srep := if has_rep r then Some (view_rep_body r) else None.
 
+(* the offsets of the copies a Repetition stands for, the original included (Repetition::get_offsets on the grid, C11:
+   column index in the outer loop); OasisWriteProofs.view_rep_offsets_lemma: [view_rep_body] denotes the same offsets *)
+Definition wrep_offsets (r : wrep) : list pt :=
+  match r with
+  | WNone => []
+  | WRect c rw sx sy => lattice c rw (sx, 0%Z) (0%Z, sy)
+  | WReg c rw v1 v2 => lattice c rw v1 v2
+  | WExpl offs => (0, 0)%Z :: offs
+  | WExplX cs => (0, 0)%Z :: map (fun c => (c, 0%Z)) cs
+  | WExplY cs => (0, 0)%Z :: map (fun c => (0%Z, c)) cs
+  end.
+
 (* ------------------------------------------------------------------ reals *)
 (* the real oasis_write_real writes, as a value of the specification's type (OasisWriteProofs: enc_real = wr_real of it) *)
 Definition real_of_bits (bits : N) : real :=
